@@ -77,9 +77,10 @@ func harnessDirsFor(prop string) (map[string][]string, error) {
 }
 
 // allHarnessNames lists every harness function in dir (any property), for the registry.
-func allHarnessNames(rel string) []string {
+func allHarnessNames(rel string, extra []string) []string {
 	var names []string
 	files, _ := filepath.Glob(filepath.Join(verifRoot, "harness", rel, "*.go"))
+	files = append(files, extra...)
 	for _, f := range files {
 		raw, _ := os.ReadFile(f)
 		for _, mt := range harnessRe.FindAllStringSubmatch(string(raw), -1) {
@@ -92,7 +93,7 @@ func allHarnessNames(rel string) []string {
 
 // prepareOverlay generates the runtime + registry + replay test for each package dir into workDir
 // and returns the overlay map (virtual path under /repo -> real path).
-func prepareOverlay(rels []string, workDir string) (map[string]string, error) {
+func prepareOverlay(rels []string, workDir string, extra map[string]string) (map[string]string, error) {
 	ov := map[string]string{}
 	rtTmpl, err := os.ReadFile(filepath.Join(verifRoot, "rt", "zz_verif_rt.go.tmpl"))
 	if err != nil {
@@ -130,7 +131,12 @@ func prepareOverlay(rels []string, workDir string) (map[string]string, error) {
 		}
 		var sb strings.Builder
 		sb.WriteString("//go:build verif\n\npackage " + pn + "\n\nvar zzHarnesses = map[string]func(*zzT){\n")
-		for _, h := range allHarnessNames(rel) {
+		var ex []string
+		if f, ok := extra[rel]; ok {
+			ex = append(ex, f)
+			ov[filepath.Join(repoDir, filepath.Base(f))] = f
+		}
+		for _, h := range allHarnessNames(rel, ex) {
 			fmt.Fprintf(&sb, "\t%q: %s,\n", h, h)
 		}
 		sb.WriteString("}\n")
@@ -212,7 +218,7 @@ func loadProgram(rels []string, ov map[string]string) (*Loaded, error) {
 
 // parseCfg reads the //zz: directives on a harness function.
 func parseCfg(fn *ssa.Function, tier string) *HarnessCfg {
-	cfg := &HarnessCfg{Name: fn.Name(), Pkg: fn.Pkg.Pkg.Path(), LoopBound: 64, MaxPaths: 2000000, MaxSteps: 5000000,
+	cfg := &HarnessCfg{Name: fn.Name(), Pkg: fn.Pkg.Pkg.Path(), LoopBound: 64, MaxPaths: 400000, MaxSteps: 5000000,
 		Witnesses: 1, Stubs: map[string]string{}, Merge: map[string]bool{}, Sched: 2, Opts: map[string]string{}, Tier: "both"}
 	fd, ok := fn.Syntax().(*ast.FuncDecl)
 	if !ok || fd.Doc == nil {
